@@ -121,7 +121,7 @@ class CompositeMove(Generic[MoveType]):
         removed_indices : IntegerArray
             The indices of the atoms to remove.
         """
-        for move in self.moves:
+        for move in {id(move): move for move in self.moves}.values():
             move.on_atoms_changed(added_indices, removed_indices)
 
     def on_cell_changed(self, new_cell: Cell) -> None:
@@ -133,7 +133,7 @@ class CompositeMove(Generic[MoveType]):
         new_cell : Cell
             The new cell.
         """
-        for move in self.moves:
+        for move in {id(move): move for move in self.moves}.values():
             move.on_cell_changed(new_cell)
 
     def __mul__(self, n: int) -> CompositeMove[MoveType]:
